@@ -52,6 +52,7 @@ type TaskPlan struct {
 type Plan struct {
 	Exists []bool        `json:"exists"`         // per path: file exists at the start
 	Fifo   []bool        `json:"fifo,omitempty"` // per path: the lock file is a FIFO (non-regular: truncation fails and is tolerated)
+	Link   []bool        `json:"link,omitempty"` // per path: the name every client uses is a symbolic link to the lock file
 	Tasks  []TaskPlan    `json:"tasks"`
 	Faults []simos.Fault `json:"faults,omitempty"`
 	AgeSecs int          `json:"age_secs,omitempty"` // how old the lock files that exist at the start are
@@ -68,6 +69,9 @@ func genPlan(t *rapid.T, tier string) any {
 	procs := rapid.IntRange(1, 3).Draw(t, "procs")
 	// in a sixth of the plans some other program renames new files over the lock files
 	replacing := rapid.IntRange(0, 5).Draw(t, "replacing") == 0
+	for i := 0; i < np; i++ {
+		p.Link = append(p.Link, !replacing && !p.Fifo[i] && rapid.IntRange(0, 4).Draw(t, "link") == 0)
+	}
 	ntasks := 0
 	for pr := 1; pr <= procs; pr++ {
 		ng := rapid.IntRange(1, 3).Draw(t, "goroutines")
@@ -117,7 +121,10 @@ func genPlan(t *rapid.T, tier string) any {
 	}
 	for i := 0; i < nf; i++ {
 		f := simos.Fault{Proc: -1, Nth: rapid.IntRange(0, 8).Draw(t, "nth"), Action: "error"}
-		switch rapid.IntRange(0, 5).Draw(t, "fkind") {
+		switch rapid.IntRange(0, 6).Draw(t, "fkind") {
+		case 6:
+			// one open is refused (a lock file the caller may not write, as a non-root user would meet)
+			f.Op, f.Errno = "open", rapid.SampledFrom([]string{"EACCES", "EPERM"}).Draw(t, "openerr")
 		case 5:
 			// one flock call is refused as unsupported (as some network and FUSE mounts do, sometimes intermittently)
 			f.Op, f.Errno = "flock", rapid.SampledFrom([]string{"ENOSYS", "ENOTSUP"}).Draw(t, "unsup")
@@ -173,9 +180,18 @@ func run(t *testing.T, plan any, keep bool) *simcheck.Outcome {
 				return out
 			}
 			out.Count("shape_fifo_lock_file", 1)
-		} else if p.Exists[i] {
-			os.WriteFile(paths[i], []byte("initial\n"), 0o666)
-			simos.SetMtime(paths[i], simtime.Now())
+		} else {
+			target := paths[i]
+			if i < len(p.Link) && p.Link[i] {
+				// the name is a symbolic link (possibly dangling) to the real lock file
+				target = filepath.Join(dir, fmt.Sprintf("target%c", 'A'+i))
+				os.Symlink(target, paths[i])
+				out.Count("shape_symlinked_lock_path", 1)
+			}
+			if p.Exists[i] {
+				os.WriteFile(target, []byte("initial\n"), 0o666)
+				simos.SetMtime(target, simtime.Now())
+			}
 		}
 	}
 	simtime.Advance(time.Duration(p.AgeSecs) * time.Second)
@@ -457,7 +473,7 @@ var harness = &simcheck.Harness{
 	Level:    "exploration",
 	Rule: "rapid draws 1-3 simulated processes x 1-3 goroutines (at most 6 tasks) x 1-4 operations on 1-2 lock files: OpenFile with every access mode +-O_CREATE/O_TRUNC/O_APPEND, Open, Create, Edit " +
 		"(held over 0-3 yields with reads/writes/truncates through the handle, sometimes closed twice); a fifth of the lock files are FIFOs (non-regular files, opened O_RDWR only), Mutex.Lock/unlock, Read, Write, Transform; a third of the plans inject 1-2 faults " +
-		"(EINTR storms, ENOLCK or ENOSYS/ENOTSUP on flock, failing truncate after the lock, failing close); lock files that are 0 s to a day old at the start and locks held for 1 s to an hour of simulated time; schedule policies random/sticky/pct/preempt; " +
+		"(EINTR storms, ENOLCK or ENOSYS/ENOTSUP on flock, an open refused with EACCES/EPERM, failing truncate after the lock, failing close); lock files that are 0 s to a day old at the start and locks held for 1 s to an hour of simulated time; schedule policies random/sticky/pct/preempt; " +
 		"non-trivial = some lock request had to wait or readers shared a lock; distinct by decision-trace hash",
 	Gen:     genPlan,
 	NewPlan: func() any { return &Plan{} },
